@@ -130,6 +130,21 @@ def catalogue(big=False):
                                [call("GO"), call("GI"),
                                 call("SUB", binds={"x": self_("x"), "d": ref("GI", "v")}, dis=ref("GO", "v"))],
                                {"o": ref("SUB", "y")})], "TOP", {"x": 1}))
+    # 8b'. a conditionally disabled sub-pipeline hands one of its inputs straight through; the
+    #      input comes from a stage outside it, the condition from a stage that is slow (two steps)
+    for nm, v in (("dis_passthrough_true", True), ("dis_passthrough_false", False)):
+        P.append(program(nm, [], [S_echo("A"), S_echo("W"), S_echo("C"), S_echo("S1"),
+                                  stage("COND", "int x", "bool v", {"v": const(v)})],
+                         [pipeline("SUB", "int y", "int y2, int w",
+                                   [call("W", binds={"x": self_("y")})],
+                                   {"y2": self_("y"), "w": ref("W", "y")}),
+                          pipeline("TOP", "int x", "int o, int w",
+                                   [call("A", binds={"x": self_("x")}),
+                                    call("S1", binds={"x": self_("x")}),
+                                    call("COND", binds={"x": ref("S1", "y")}),
+                                    call("SUB", binds={"y": ref("A", "y")}, dis=ref("COND", "v")),
+                                    call("C", binds={"x": ref("SUB", "y2")})],
+                                   {"o": ref("C", "y"), "w": ref("SUB", "w")})], "TOP", {"x": 4}))
     # 8c. three nested pipelines each with its own run-time condition (all false), and two
     #     sibling calls with their own conditions inside: one disabled, one enabled
     for dname, fa, fb in (("dis_deep", True, False), ("dis_deep_ff", False, False), ("dis_deep_ft", False, True)):
